@@ -193,7 +193,7 @@ def _codegen_variable(
 
     value = sympy_to_inline_py(init)
     if (unit := var.unit) is not None:
-        return f"        .add_variable({k!r}, value={value}, unit={sympy_to_inline_py(unit)})"
+        return f"        .add_variable({k!r}, initial_value={value}, unit={sympy_to_inline_py(unit)})"
     return f"        .add_variable({k!r}, initial_value={value})"
 
 
